@@ -334,7 +334,7 @@ def _preds(blocks):
     return pr
 
 
-def _thread_jumps(b, first_new):
+def _thread_jumps(b, first_new, bool_only=False):
     """Jump threading for values produced by an inlined helper: a helper that returned `bool` / a private enum and is matched
     on by its caller leaves, once spliced in, `x = Variant; goto join; join: switch discriminant(x)`. Every edge into such a
     join whose value is a constant assigned in the spliced code (block index >= first_new) is redirected - through clones of
@@ -343,6 +343,23 @@ def _thread_jumps(b, first_new):
     any path."""
     blocks = b["blocks"]
     n_threaded = 0
+    # locals that only ever hold literal booleans (the merge temporaries of `matches!`, `&&`, `||`)
+    const_bools = set()
+    if bool_only:
+        defs_ = {}
+        for blk in blocks:
+            for st in blk["stmts"]:
+                if st["k"] == "assign" and not st["place"]["p"]:
+                    defs_.setdefault(st["place"]["l"], []).append(st["rv"])
+            tt = blk["term"]
+            if tt["k"] in ("call", "yield") and isinstance(tt.get("dest"), dict) and not tt["dest"]["p"]:
+                defs_.setdefault(tt["dest"]["l"], []).append({"k": "call"})
+        argc = b.get("arg_count", 0)
+        for l, rvs in defs_.items():
+            if l > argc and len(rvs) >= 2 and all(rv["k"] == "use" and rv["op"].get("k") == "const" and rv["op"].get("ty") == "bool" and "val" in rv["op"] for rv in rvs):
+                const_bools.add(l)
+        if not const_bools:
+            return 0
     for _pass in range(6):
         preds = _preds(blocks)
         done = False
@@ -373,13 +390,22 @@ def _thread_jumps(b, first_new):
                         return None
                     rv = st["rv"]
                     if rv["k"] == "aggr" and "vidx" in rv and want[0] == "variant":
-                        return ("const", rv["vidx"], blk_idx >= first_new)
+                        return None if bool_only else ("const", rv["vidx"], blk_idx >= first_new)
                     if rv["k"] == "use" and rv["op"].get("k") == "const" and "val" in rv["op"]:
-                        return ("const", rv["op"]["val"], blk_idx >= first_new)
-                    if rv["k"] == "use" and rv["op"].get("k") in ("copy", "move") and not rv["op"]["place"]["p"]:
-                        want = (want[0], rv["op"]["place"]["l"])
+                        if bool_only and (rv["op"].get("ty") != "bool" or st["place"]["l"] not in const_bools):
+                            return None
+                        v = rv["op"]["val"]
+                        if len(want) > 2 and want[2]:
+                            v = 0 if v else 1
+                        return ("const", v, blk_idx >= first_new)
+                    if rv["k"] == "unop" and rv.get("op") == "Not" and want[0] == "val" and rv["a"].get("k") in ("copy", "move") and not rv["a"]["place"]["p"] \
+                            and "bool" == (b["locals"][rv["a"]["place"]["l"]].get("ty") or {}).get("s"):
+                        want = ("val", rv["a"]["place"]["l"], not (len(want) > 2 and want[2]))
                         continue
-                    if rv["k"] == "discr" and not rv["place"]["p"] and want[0] == "val":
+                    if rv["k"] == "use" and rv["op"].get("k") in ("copy", "move") and not rv["op"]["place"]["p"]:
+                        want = (want[0], rv["op"]["place"]["l"]) + tuple(want[2:])
+                        continue
+                    if rv["k"] == "discr" and not rv["place"]["p"] and want[0] == "val" and not (len(want) > 2 and want[2]):
                         want = ("variant", rv["place"]["l"])
                         continue
                     return None
@@ -711,6 +737,70 @@ def normalize(pkg, data, log=None):
         if ok and mapping:
             _rename_fields(data, path, mapping)
             notes.append(f"fields of {path}: {mapping}")
+    # ---- (c1) grouped fields: a baseline struct lost fields f1..fk and gained ONE field whose type is a new private struct holding
+    # exactly those (same names and types): reach them through the group as if they were still fields of the outer struct
+    for path, bvars in base["adts"].items():
+        cvars = cur["adts"].get(path)
+        if cvars is None or len(bvars) != 1 or len(cvars) != 1:
+            continue
+        bf, cf = bvars[0], cvars[0]
+        bnames, cnames = [n for n, _t in bf], [n for n, _t in cf]
+        missing = [n for n in bnames if n not in cnames]
+        extra = [(n, t) for n, t in cf if n not in bnames]
+        if not missing or len(extra) != 1:
+            continue
+        gname, gty = extra[0]
+        q = strip_generics(gty)
+        if q in base["adts"] or q not in cur["adts"] or len(cur["adts"][q]) != 1:
+            continue
+        inner = dict((n, t) for n, t in cur["adts"][q][0])
+        btypes = dict(bf)
+        if not all(m in inner for m in missing):
+            continue
+        # same types modulo the outer generic spelling
+        if not all(strip_generics(inner[m]) == strip_generics(btypes[m]) or inner[m] == btypes[m] for m in missing):
+            continue
+        gfull = f"{path}::{gname}"
+        bidx = {n: i for i, n in enumerate(bnames)}
+
+        def flat(x, _g=gfull, _q=q, _path=path, _missing=set(missing), _bidx=bidx):
+            if isinstance(x, dict):
+                pr = x.get("p")
+                if isinstance(pr, list) and pr:
+                    out, i = [], 0
+                    while i < len(pr):
+                        e = pr[i]
+                        if isinstance(e, dict) and e.get("f") == _g and i + 1 < len(pr) and isinstance(pr[i + 1], dict) and \
+                                str(pr[i + 1].get("f", "")).startswith(_q + "::") and pr[i + 1]["f"][len(_q) + 2:] in _missing:
+                            nm = pr[i + 1]["f"][len(_q) + 2:]
+                            out.append({"f": f"{_path}::{nm}", "i": _bidx[nm]})
+                            i += 2
+                            continue
+                        out.append(e)
+                        i += 1
+                    x["p"] = out
+                for v in x.values():
+                    if isinstance(v, (dict, list)):
+                        flat(v)
+            elif isinstance(x, list):
+                for v in x:
+                    if isinstance(v, (dict, list)):
+                        flat(v)
+        for b in data["bodies"]:
+            flat(b["blocks"])
+            flat(b.get("upvars", []))
+        for a in data["adts"]:
+            if a["path"] == path:
+                v = a["variants"][0]
+                byname = {f["name"]: f for f in v["fields"]}
+                qa = next((a2 for a2 in data["adts"] if a2["path"] == q), None)
+                if qa:
+                    for f in qa["variants"][0]["fields"]:
+                        byname.setdefault(f["name"], f)
+                v["fields"] = [byname[n] for n in bnames if n in byname] + [f for f in v["fields"] if f["name"] not in bnames]
+        notes.append(f"fields {missing} of {path} reached through the new group `{gname}: {q.rsplit('::', 1)[-1]}`")
+    if any(n.startswith("fields [") for n in notes):
+        cur = inventory(data)
     # ---- (c2) renamed enum variants (same enum - possibly renamed above -, same number of variants, same field types each)
     for path, bnames in base.get("adt_variants", {}).items():
         cnames = cur.get("adt_variants", {}).get(path)
@@ -855,6 +945,21 @@ def normalize(pkg, data, log=None):
             n_thr += _thread_jumps(b, b["orig_blocks"])
     if n_thr:
         notes.append(f"jump threads through inlined helper results: {n_thr}")
+    # ---- (h) functions whose shape differs from the baseline: see through literal-boolean merge temporaries (`matches!`, `&&`, `||`
+    # feeding an `if`) by threading them as well, so that a rewritten condition guards the same blocks as the spelled-out match
+    n_b = 0
+    for b in data["bodies"]:
+        kb = strip_generics(b["path"])
+        root = kb.split("::{closure")[0]
+        bf = base["fns"].get(root)
+        changed = bf is None or b.get("inlined") or ("{closure" not in kb and json.dumps(_fingerprint(b)) != json.dumps(bf.get("fp")))
+        if "{closure" in kb and bf is not None and not changed:
+            rb = next((x for x in data["bodies"] if strip_generics(x["path"]) == root), None)
+            changed = rb is not None and json.dumps(_fingerprint(rb)) != json.dumps(bf.get("fp"))
+        if changed and len(b["blocks"]) < 3000:
+            n_b += _thread_jumps(b, 0, bool_only=True)
+    if n_b:
+        notes.append(f"literal-boolean merges threaded in changed functions: {n_b}")
     if notes:
         data["_normalized"] = notes
         if log:
